@@ -330,9 +330,9 @@ def emit_entries(types, core_n, defs_entries):
             continue
         seen.add(txt)
         enc = "enc" if t.enc() else "noenc"
-        lines.append("        vcommon::entry!(%s, %s, %s, %d, %s, false, %s)," % (txt, rust_str(t.shallow()), rust_str(t.deep()), t.alias_layers(), enc, "true" if i < core_n else "false"))
-    for (txt, sh, dp, enc) in defs_entries:
-        lines.append("        vcommon::entry!(%s, %s, %s, 0, %s, true, true)," % (txt, rust_str(sh), rust_str(dp), "enc" if enc else "noenc"))
+        lines.append("        vcommon::entry!(%s, %s, %s, %d, %s, false, %s)," % (txt, rust_str(t.shallow()), rust_str(t.deep()), t.alias_layers(), enc, ("true" if i < core_n else "false") + ', ""'))
+    for (txt, sh, dp, enc, tags) in defs_entries:
+        lines.append("        vcommon::entry!(%s, %s, %s, 0, %s, true, true, %s)," % (txt, rust_str(sh), rust_str(dp), "enc" if enc else "noenc", rust_str(tags)))
     return lines
 
 
@@ -365,4 +365,6 @@ def main():
 
 
 if __name__ == "__main__":
-    main()
+    # run as module `corpus` so that defs.py and this file share one set of classes
+    import corpus
+    corpus.main()
